@@ -5,9 +5,11 @@ import Relsad.Model.Battery
 import Relsad.Model.Fail
 import Relsad.Model.BusAcct
 import Relsad.Model.Interp
+import Relsad.Model.EVPark
 import Relsad.Props.C17
 import Relsad.Props.C11
 import Relsad.Props.C13
 import Relsad.Props.C10
 import Relsad.Props.C01
 import Relsad.Props.C19
+import Relsad.Props.C12
